@@ -1,8 +1,11 @@
 package main
 
 import (
+	"encoding/json"
+	"flag"
 	"fmt"
 	"os"
+	"os/exec"
 	"runtime/debug"
 	"strings"
 	"syscall"
@@ -176,51 +179,55 @@ func checkC19(s *Scenario) (*Failure, *schedObs) {
 	if !ok {
 		return nil, obs
 	}
-	// Three independently parsed copies of the shared tree: one per sequential
-	// run and an untouched one for the interleaved run, so that state written
-	// lazily on first use (a memo inside the tree) is first touched by
-	// concurrent tasks, as it would be in a server.
-	sharedBefore := snapAll(env.shared)
-	solo1, steps1 := soloRun(env, s.Tasks)
+	if len(s.Tasks) == 0 {
+		return nil, obs
+	}
+	// Order matters: the interleaved run comes FIRST and works on a tree that
+	// nothing has touched, so state that is written lazily on first use (a memo
+	// inside the tree, a package-level cache miss, a scratch buffer grown once
+	// per process) is first touched by concurrent tasks, as in a server.  The
+	// two sequential reference runs follow, each on its own freshly parsed tree.
+	theRaceLog.take() // discard anything earlier sequential code produced (cannot be cross-task)
+	results := make([]string, len(s.Tasks))
+	bodies := make([]func(), len(s.Tasks))
+	for i := range s.Tasks {
+		i := i
+		body := taskBody(env, &s.Tasks[i])
+		bodies[i] = func() { results[i] = protect(body) }
+		obs.Kinds = append(obs.Kinds, s.Tasks[i].Kind)
+	}
+	taskBudget := uint64(0)
+	for _, d := range env.docs {
+		if b := 8 * stepBudget(len(d)); b > taskBudget {
+			taskBudget = b
+		}
+	}
+	res := simrt.Run(bodies, s.Switches, taskBudget)
+	obs.Switches = res.Switches
+	obs.Triples = res.Preempt
+	obs.TaskSteps = res.TaskSteps
+	report := theRaceLog.take()
+	sharedAfter := snapAll(env.shared)
+
+	env1, ok1 := buildTaskEnv(s)
 	env2, ok2 := buildTaskEnv(s)
-	envC, ok3 := buildTaskEnv(s)
-	if !ok2 || !ok3 {
+	if !ok1 || !ok2 {
 		return &Failure{Check: "sequential-nondeterminism", Observed: "Parse of the shared document panicked on a repeated call"}, obs
 	}
+	sharedBefore := snapAll(env1.shared)
+	solo1, steps1 := soloRun(env1, s.Tasks)
 	solo2, _ := soloRun(env2, s.Tasks)
 	obs.SoloSteps = steps1
 	for i := range solo1 {
 		if solo1[i] != solo2[i] {
 			return &Failure{Check: "sequential-nondeterminism", Observed: fmt.Sprintf("task %d (%s) gave two different results when run alone twice: %s", i, s.Tasks[i].Kind, firstDiff(solo1[i], solo2[i]))}, obs
 		}
-		obs.Kinds = append(obs.Kinds, s.Tasks[i].Kind)
 	}
-	if a := snapAll(env.shared); a != sharedBefore {
+	if a := snapAll(env1.shared); a != sharedBefore {
 		return &Failure{Check: "shared-tree-touched", Observed: "by a sequential run: " + firstDiff(sharedBefore, a)}, obs
 	}
-	theRaceLog.take() // discard anything the sequential runs produced (cannot be cross-task)
-	env = envC
+	theRaceLog.take()
 
-	results := make([]string, len(s.Tasks))
-	bodies := make([]func(), len(s.Tasks))
-	var maxSolo uint64
-	for _, st := range steps1 {
-		if st > maxSolo {
-			maxSolo = st
-		}
-	}
-	for i := range s.Tasks {
-		i := i
-		body := taskBody(env, &s.Tasks[i])
-		bodies[i] = func() { results[i] = protect(body) }
-	}
-	taskBudget := 64*maxSolo + 1<<20
-	res := simrt.Run(bodies, s.Switches, taskBudget)
-	obs.Switches = res.Switches
-	obs.Triples = res.Preempt
-	obs.TaskSteps = res.TaskSteps
-
-	report := theRaceLog.take()
 	var fails []*Failure
 	if strings.Contains(report, "DATA RACE") {
 		obs.RaceReport = report
@@ -238,8 +245,8 @@ func checkC19(s *Scenario) (*Failure, *schedObs) {
 			break
 		}
 	}
-	if a := snapAll(env.shared); a != sharedBefore {
-		fails = append(fails, &Failure{Check: "shared-tree-touched", Observed: firstDiff(sharedBefore, a)})
+	if sharedAfter != sharedBefore {
+		fails = append(fails, &Failure{Check: "shared-tree-touched", Observed: firstDiff(sharedBefore, sharedAfter)})
 	}
 	if len(fails) == 0 {
 		return nil, obs
@@ -279,4 +286,65 @@ func raceSummary(report string) string {
 		}
 	}
 	return "DATA RACE: " + strings.Join(tops, " / ")
+}
+
+// ---- cold evaluation: one scenario per fresh process ---------------------
+
+var coldChild bool // this process evaluates cold scenarios directly
+
+type coldResult struct {
+	Fail *Failure
+	Obs  *schedObs
+}
+
+// runColdChild evaluates s in a fresh process, so that process-wide state
+// (package-level caches and scratch buffers) is cold when the interleaved run
+// starts.
+func runColdChild(s *Scenario) (*Failure, *schedObs) {
+	dir := os.Getenv("VERIF_SCRATCH_DIR")
+	if dir == "" {
+		dir = os.TempDir()
+	}
+	f, err := os.CreateTemp(dir, "cold-*.json")
+	if err != nil {
+		panic(err)
+	}
+	name := f.Name()
+	f.Close()
+	defer os.Remove(name)
+	defer os.Remove(name + ".racelog")
+	if err := writeScenario(name, s); err != nil {
+		panic(err)
+	}
+	cmd := exec.Command(os.Args[0], "cold", "-nsites", fmt.Sprint(nSites), "-racelog", name+".racelog", name)
+	cmd.Env = os.Environ()
+	out, err := cmd.Output()
+	if err != nil {
+		panic(fmt.Sprintf("cold child failed: %v", err))
+	}
+	var r coldResult
+	if err := json.Unmarshal(out, &r); err != nil {
+		panic(fmt.Sprintf("cold child output: %v: %s", err, trunc(string(out), 300)))
+	}
+	if r.Obs == nil {
+		r.Obs = &schedObs{}
+	}
+	return r.Fail, r.Obs
+}
+
+func coldMain(args []string) {
+	fs := flag.NewFlagSet("cold", flag.ExitOnError)
+	nsites := fs.Int("nsites", 0, "")
+	racelog := fs.String("racelog", "", "")
+	fs.Parse(args)
+	setupProcess(*nsites, *racelog)
+	coldChild = true
+	s, err := readScenario(fs.Arg(0))
+	if err != nil {
+		die("%v", err)
+	}
+	f, obs := checkC19(s)
+	obs.RaceReport = trunc(obs.RaceReport, 200)
+	b, _ := json.Marshal(coldResult{f, obs})
+	os.Stdout.Write(b)
 }
